@@ -369,6 +369,8 @@ def step (IO : SymIO σ) (w : World σ) (op : Op) : World σ × String :=
     match w.ses.get sid with
     | none => bad
     | some s =>
+      -- the last-symbol flag describes a configured session: the driver does not ask a session without (accepted) parameters
+      if what != "maxk" && what != "maxn" && s.params.isNone then bad else
       if s.twoD then
         if what == "maxk" then (w, s!"ok st=OK v={Parity2D.MAX_K}")
         else if what == "maxn" then (w, s!"ok st=OK v={Parity2D.MAX_N}")
